@@ -8,7 +8,10 @@ cancels it / reply after 1 s of virtual time), run on an `async_solipsism` virtu
 All powers are `lib.exact.X` rationals, so the results are exact and compared exactly with the
 model (coq/model/Accounting.v, over Q).
 
-Outcome codes: 0 ok, 1 out-of-range, 2 client error, 3 other exception, 4 timeout, 5 slow ok (1 s < 5 s timeout).
+Outcome codes: 0 ok, 1 out-of-range, 2 client error, 3 other exception, 4 timeout, 5 slow ok (1 s < 5 s timeout),
+6 silent + slow cancel (never replies; when cancelled it takes 1 s to unwind before re-raising CancelledError),
+7 late ok (would reply at timeout + 0.5 s), 8 late ok + slow cancel.  A call that has not replied when the timeout
+fires is a TIMEOUT (failed) whatever happens afterwards, so 6, 7, 8 are `OTimeout` for the model and the oracle.
 """
 from __future__ import annotations
 
@@ -23,8 +26,11 @@ from lib.core import Stream, cZ, clist
 from lib.exact import X
 
 TIMEOUT_S = 5.0
-OUT_NAMES = ["OOk", "ORange", "OClient", "OOther", "OTimeout", "OOk"]
-FAILED = [False, True, True, True, True, False]
+OUT_NAMES = ["OOk", "ORange", "OClient", "OOther", "OTimeout", "OOk", "OTimeout", "OTimeout", "OTimeout"]
+FAILED = [False, True, True, True, True, False, True, True, True]
+OUT_LABELS = ["ok", "out_of_range", "client_error", "other_exception", "timeout", "slow_ok", "silent_slow_cancel", "late_ok", "late_ok_slow_cancel"]
+LATE_S = 0.5      # a late reply arrives this long after the timeout
+UNWIND_S = 1.0    # a slow cancellation takes this long
 
 
 # ----------------------------------------------------------------------------- numbers
@@ -97,6 +103,15 @@ class FakeApi:
             await asyncio.Event().wait()       # never replies: the manager's timeout cancels the task
         if o == 5:
             await asyncio.sleep(1.0)           # slow but in time
+        if o in (6, 7, 8):
+            try:
+                if o == 6:
+                    await asyncio.Event().wait()
+                await asyncio.sleep(TIMEOUT_S + LATE_S)      # the reply would come after the timeout
+            except asyncio.CancelledError:
+                if o in (6, 8):
+                    await asyncio.sleep(UNWIND_S)            # cancellation takes time to unwind
+                raise
 
 
 class FakeTracker:
@@ -344,7 +359,13 @@ def gen_out(rng, n):
         return [rng.choice([0, 5]) for _ in range(n)]
     if r < 0.25:
         return [rng.choice([1, 2, 3, 4]) for _ in range(n)]
-    return [rng.choice([0, 0, 1, 2, 3, 4, 5]) for _ in range(n)]
+    if r < 0.45 and n >= 2:
+        # several calls still pending at the timeout, slow cancellations and late replies among them
+        out = [rng.choice([0, 2, 4, 5, 6, 7, 8, 8]) for _ in range(n)]
+        a, b = rng.sample(range(n), 2)
+        out[a], out[b] = rng.choice([6, 8]), rng.choice([7, 8])
+        return out
+    return [rng.choice([0, 0, 1, 2, 3, 4, 5, 6, 7, 8]) for _ in range(n)]
 
 
 def gen_pv_base(rng, n):
@@ -393,6 +414,10 @@ def pv_special_cases():
     # ties in the sort, both iteration orders
     out.append({"req": [-150, 1], "ids": [1, 2, 3], "tracker": True, "working": [[3, [-100, 1]], [1, [-100, 1]], [2, [-20, 1]]], "out": [0, 2, 0]})
     out.append({"req": [-150, 1], "ids": [1, 2, 3], "tracker": True, "working": [[1, [-100, 1]], [3, [-100, 1]], [2, [-20, 1]]], "out": [0, 2, 0]})
+    # calls pending at the timeout: late replies / slow cancellations must not turn them into successes
+    for o in ([8, 8], [6, 7], [7, 6], [0, 8, 8], [7], [8, 8, 8]):
+        out.append({"req": [-900, 1], "ids": [1, 2, 3], "tracker": True,
+                    "working": [[1, [-400, 1]], [2, [-300, 1]], [3, [-500, 1]]][:len(o)], "out": o})
     return out
 
 
@@ -407,6 +432,11 @@ def bat_special_cases():
         {"req": [40, 1], "dist": [[10, [0, 1]], [11, [40, 1]]], "rem": [0, 1], "map": m, "out": [2, 0]},
         # two inverters behind one battery, one fails
         {"req": [-90, 1], "dist": [[10, [-60, 1]], [11, [-40, 1]]], "rem": [10, 1], "map": [[10, [100]], [11, [100]]], "out": [0, 3]},
+    ] + [
+        # calls pending at the timeout: late replies / slow cancellations must not turn them into successes
+        {"req": [900, 1], "dist": [[10, [400, 1]], [11, [300, 1]], [12, [200, 1]]][:len(o)], "rem": [900 - [400, 700, 900][len(o) - 1], 1],
+         "map": [[10, [100]], [11, [101]], [12, [102]]], "out": o}
+        for o in ([8, 8], [6, 7], [7, 6], [0, 8, 8], [7], [8, 8, 8])
     ]
 
 
@@ -481,9 +511,11 @@ class BatStream(Stream):
         nf = sum(FAILED[o] for o in case["out"])
         lb.append("all_ok" if nf == 0 else "all_failed" if nf == n else "mixed")
         for o in sorted(set(case["out"])):
-            lb.append("outcome=" + ["ok", "out_of_range", "client_error", "other_exception", "timeout", "slow_ok"][o])
+            lb.append("outcome=" + OUT_LABELS[o])
         if 5 in case["out"] and any(o in (1, 2, 3) for o in case["out"]):
             lb.append("an_error_replies_before_a_success")
+        if any(o in (6, 8) for o in case["out"]) and any(o in (7, 8) for o in case["out"]) and sum(o in (4, 6, 7, 8) for o in case["out"]) >= 2:
+            lb.append("late_ok_reply_while_another_cancellation_unwinds")
         if qsum(p for _, p in case["dist"]) + fr(case["rem"]) == fr(case["req"]):
             lb.append("c01_identity_holds")
         else:
@@ -571,9 +603,11 @@ class PVStream(Stream):
             nf = sum(FAILED[o] for o in outs)
             lb.append("all_ok" if nf == 0 else "all_failed" if nf == n else "mixed")
             for o in sorted(set(outs)):
-                lb.append("outcome=" + ["ok", "out_of_range", "client_error", "other_exception", "timeout", "slow_ok"][o])
+                lb.append("outcome=" + OUT_LABELS[o])
             if 5 in outs and any(o in (1, 2, 3) for o in outs):
                 lb.append("an_error_replies_before_a_success")
+            if any(o in (6, 8) for o in outs) and any(o in (7, 8) for o in outs) and sum(o in (4, 6, 7, 8) for o in outs) >= 2:
+                lb.append("late_ok_reply_while_another_cancellation_unwinds")
             if "excess" in obs:
                 lb.append("nonzero_excess" if fr(obs["excess"]) != 0 else "zero_excess")
             bs = [tuple(b) for _, b in case["working"] if b is not None]
@@ -637,11 +671,16 @@ class FakeApiById:
 
     async def set_power(self, component_id, power):
         self.calls.append((component_id, power))
-        o, lat = self.script.get(component_id, (0, 0))
-        if o == 4:
-            await asyncio.Event().wait()
-        if lat:
-            await asyncio.sleep(lat / 4.0)
+        o, lat, unwind = self.script.get(component_id, (0, 0, 0))
+        try:
+            if o == 4:
+                await asyncio.Event().wait()
+            if lat:
+                await asyncio.sleep(lat / 4.0)
+        except asyncio.CancelledError:
+            if unwind:
+                await asyncio.sleep(unwind / 4.0)     # cancellation takes time to unwind
+            raise
         if o == 1:
             raise self.I.OperationOutOfRange(server_url="fake", operation="set_power", grpc_error=_GrpcErr())
         if o == 2:
@@ -686,7 +725,7 @@ def _overlap(spans):
 def run_conc_pv(case) -> dict:
     I = _imports()
     reqs = case["reqs"]
-    script = {cid: (o, lat) for r in reqs for cid, o, lat in r["script"]}
+    script = {e[0]: (e[1], e[2], e[3] if len(e) > 3 else 0) for r in reqs for e in r["script"]}
     api = FakeApiById(script, I)
     I.cm._CONNECTION_MANAGER = SimpleNamespace(api_client=api, component_graph=None)
     pv = I.PVManager.__new__(I.PVManager)
@@ -720,7 +759,7 @@ def run_conc_pv(case) -> dict:
 def run_conc_bat(case) -> dict:
     I = _imports()
     reqs = case["reqs"]
-    script = {cid: (o, lat) for r in reqs for cid, o, lat in r["script"]}
+    script = {e[0]: (e[1], e[2], e[3] if len(e) > 3 else 0) for r in reqs for e in r["script"]}
     api = FakeApiById(script, I)
     I.cm._CONNECTION_MANAGER = SimpleNamespace(api_client=api, component_graph=None)
     bm = I.BatteryManager.__new__(I.BatteryManager)
@@ -751,11 +790,20 @@ def run_conc_bat(case) -> dict:
             "overlap": _overlap([(fr(o["span"][0]), fr(o["span"][1])) for o in out])}
 
 
-LAT_PROFILES = ["error_before_success", "success_before_error", "random", "instant"]
+LAT_PROFILES = ["error_before_success", "success_before_error", "random", "instant", "late_and_slow_cancel"]
+
+
+TIMEOUT_Q = int(TIMEOUT_S * 4)
+
+
+def eff_outcome(e):
+    """model/oracle outcome of a script entry: no reply before the timeout = timeout, whatever comes later"""
+    return 4 if (e[1] == 4 or e[2] > TIMEOUT_Q) else e[1]
 
 
 def gen_script(rng, ids, profile):
-    """[[id, outcome 0..4, latency in quarter seconds (<= 12, the timeout is 20)]]"""
+    """[[id, outcome 0..4, latency in quarter seconds, cancel-unwind time in quarter seconds]]; the timeout is 20
+    quarters: latencies are <= 12 (in time) or 21..23 (late: the reply would come after the timeout)"""
     r = rng.random()
     outs = ([0] * len(ids) if r < 0.15 else [rng.choice([1, 2, 3, 4]) for _ in ids] if r < 0.25
             else [rng.choice([0, 0, 0, 1, 2, 3, 4]) for _ in ids])
@@ -772,13 +820,20 @@ def gen_script(rng, ids, profile):
             lat = rng.choice([4, 6, 8, 12]) if o == 0 else rng.choice([0, 1])
         else:
             lat = rng.choice([0, 1]) if o == 0 else rng.choice([4, 6, 8, 12])
-        sc.append([i, o, lat])
+        sc.append([i, o, lat, 0])
+    if profile == "late_and_slow_cancel":
+        for e in sc:
+            k = rng.random()
+            if k < 0.45:
+                e[1], e[2], e[3] = rng.choice([0, 0, 2]), rng.choice([21, 22, 23]), rng.choice([0, 4, 8])   # late reply
+            elif k < 0.7:
+                e[1], e[2], e[3] = 4, 0, rng.choice([2, 4, 8])                                               # silent, slow cancel
     return sc
 
 
 def _sub_out(sub, calls):
     """outcome of every recorded call of this request, in call order"""
-    sc = {i: o for i, o, _ in sub["script"]}
+    sc = {e[0]: eff_outcome(e) for e in sub["script"]}
     return [sc.get(c, 0) for c, _ in calls]
 
 
@@ -786,8 +841,11 @@ def _profile_labels(case, obs):
     lb = [f"requests={len(case['reqs'])}", "in_flight_together" if obs["overlap"] else "not_overlapping"]
     for r in case["reqs"]:
         lb.append("latency=" + r.get("profile", "?"))
-        oks = [lat for _, o, lat in r["script"] if o == 0]
-        errs = [lat for _, o, lat in r["script"] if o in (1, 2, 3)]
+        oks = [e[2] for e in r["script"] if eff_outcome(e) == 0]
+        errs = [e[2] for e in r["script"] if eff_outcome(e) in (1, 2, 3)]
+        pend = [e for e in r["script"] if eff_outcome(e) == 4]
+        if len(pend) >= 2 and any(e[3] for e in pend) and any(e[2] > TIMEOUT_Q and e[1] == 0 for e in pend):
+            lb.append("late_ok_reply_while_another_cancellation_unwinds")
         if oks and errs and min(errs) < max(oks):
             lb.append("an_error_replies_before_a_success")
         if oks and errs and min(oks) < max(errs):
@@ -805,10 +863,11 @@ def _shrink_conc(case):
         for i in range(len(rs)):
             yield {**case, "reqs": rs[:i] + rs[i + 1:]}
     for i, r in enumerate(rs):
-        if any(lat or o for _, o, lat in r["script"]):
-            yield {**case, "reqs": rs[:i] + [{**r, "script": [[c, 0, 0] for c, _, _ in r["script"]]}] + rs[i + 1:]}
-        if any(lat for _, _, lat in r["script"]):
-            yield {**case, "reqs": rs[:i] + [{**r, "script": [[c, o, 0] for c, o, _ in r["script"]]}] + rs[i + 1:]}
+        if any(e[1] or e[2] for e in r["script"]):
+            yield {**case, "reqs": rs[:i] + [{**r, "script": [[e[0], 0, 0, 0] for e in r["script"]]}] + rs[i + 1:]}
+        for k, e in enumerate(r["script"]):
+            if e[1] or e[2] or (len(e) > 3 and e[3]):
+                yield {**case, "reqs": rs[:i] + [{**r, "script": r["script"][:k] + [[e[0], 0, 0, 0]] + r["script"][k + 1:]}] + rs[i + 1:]}
         if r["start"]:
             yield {**case, "reqs": rs[:i] + [{**r, "start": 0}] + rs[i + 1:]}
 
@@ -900,7 +959,7 @@ class ConcBatStream(Stream):
 
     def _subs(self, case, obs):
         for r, o in zip(case["reqs"], obs["reqs"]):
-            sc = {i: oc for i, oc, _ in r["script"]}
+            sc = {e[0]: eff_outcome(e) for e in r["script"]}
             yield {"req": r["req"], "rem": r["rem"], "dist": r["dist"], "map": r["map"], "out": [sc.get(i, 0) for i, _ in r["dist"]]}, o
 
     def to_coq(self, case, obs):
